@@ -348,10 +348,14 @@ def judge(ctx, case, work, acks, twins, main_index, base_max, k, total):
     # cheap path: identical tables to one of the two admissible twins => identical observation
     # (the engine is a function of the store); the full protocol-level observation is taken for
     # every 5th point and whenever the tables match neither twin
-    try:
-        full = quick_dump(work, base_max)
-    except Exception as e:
-        full = None
+    # with a journal beside the file the server itself must be the first to open it: recovering from the journal is part of
+    # what is being judged (a plain connection of the harness would roll it back and hand the server a repaired store)
+    full = None
+    if not had_journal:
+        try:
+            full = quick_dump(work, base_max)
+        except Exception as e:
+            full = None
     if full is not None and k % 5 and not had_journal:
         if full == twins[nack]['full']:
             ctx.count('recoveries_compared')
